@@ -3,7 +3,6 @@
 package sm4
 
 import (
-	"time"
 	"bytes"
 	"crypto/cipher"
 	"fmt"
@@ -11,6 +10,7 @@ import (
 	"sync"
 	"sync/atomic"
 	"testing"
+	"time"
 
 	"github.com/bilibili/smgo/zzverif/hk"
 	"github.com/bilibili/smgo/zzverif/ref"
@@ -308,9 +308,9 @@ func TestVerifC17SM4(t *testing.T) {
 				blk, _ := NewCipher(key)
 				nb := 48
 				type bm struct {
-					buf      []byte // block at buf[off:off+16]
-					off      int
-					ct       []byte
+					buf []byte // block at buf[off:off+16]
+					off int
+					ct  []byte
 				}
 				var bms []bm
 				for i := 0; i < nb; i++ {
